@@ -282,3 +282,56 @@ func hPerms09(n int) [][]int {
 	}
 	return out
 }
+
+// VerifC09_FullStateExchange: what single-update gossip lost is repaired by a full-state
+// exchange (push/pull): instance A creates a silence, B receives it; A then expires it
+// (or a second silence is created and expired on A) while the single updates to B are
+// lost; after an arbitrary time within the retention B merges A.MarshalBinary(). B then
+// holds, for every silence A still stores, the same version as A: the expiry is not
+// lost because the silence "has ended anyway", and B no longer mutes what A unmuted.
+//
+//vf:quick unwind=12 decisions=300 paths=300000
+//vf:thorough unwind=16 decisions=400 paths=3000000
+//vf:expect reach=converged-after-exchange
+func VerifC09_FullStateExchange() {
+	a := hNew09(time.Hour)
+	b := hNew09(time.Hour)
+	var sent [][]byte
+	a.SetBroadcast(func(x []byte) { sent = append(sent, x) })
+	ctx := context.Background()
+	now := vfNow()
+	s1 := hSil09("", "a", now, now.Add(time.Hour+vfSeconds("len", 1, 7200)), time.Time{})
+	vfAssert("create-ok", a.Set(ctx, s1) == nil)
+	vfAssert("merge-ok", b.Merge(sent[0]) == nil) // B knows version 1
+	// partition: A's further updates do not reach B
+	vfAdvance(vfSeconds("t1", 1, 1800))
+	vfAssert("expire-ok", a.Expire(ctx, s1.Id) == nil)
+	var s2 *pb.Silence
+	if vfBool("secondSilence") {
+		s2 = hSil09("", "b", vfNow(), vfNow().Add(vfSeconds("len2", 60, 7200)), time.Time{})
+		vfAssert("create-ok", a.Set(ctx, s2) == nil)
+		if vfBool("expireSecond") {
+			vfAdvance(vfSeconds("t2", 1, 600))
+			vfAssert("expire-ok", a.Expire(ctx, s2.Id) == nil)
+		}
+	}
+	// the partition heals within the retention: push/pull
+	vfAdvance(vfSeconds("healAfter", 0, 3000))
+	st, err := a.MarshalBinary()
+	vfAssert("state-marshals", err == nil)
+	vfAssert("full-state-merges", b.Merge(st) == nil)
+	nowX := vfNow()
+	for id, ea := range a.st {
+		vfAssume(!ea.ExpiresAt.AsTime().Equal(nowX))
+		eb, ok := b.st[id]
+		if ea.ExpiresAt.AsTime().Before(nowX) {
+			continue // past its retention: may be dropped
+		}
+		vfAssert("b-holds-every-silence-a-stores", ok)
+		if ok {
+			vfAssert("b-holds-a's-version", eb.Silence.UpdatedAt.AsTime().Equal(ea.Silence.UpdatedAt.AsTime()) && eb.Silence.EndsAt.AsTime().Equal(ea.Silence.EndsAt.AsTime()))
+		}
+	}
+	vfAssert("indexes-in-step", hIndexesInStep09(b))
+	vfReach("converged-after-exchange")
+}
